@@ -292,6 +292,15 @@ pub fn set_condition_register_unsigned(
     Ok(())
 }
 
+/// Record forms (`add.`, `rlwinm.` ...) compare the result with zero and set
+/// the lt, gt and eq bits of cr0.
+pub fn record_cr0(block: &mut Block, detail: &capstone::cs_ppc, result: Scalar) -> Result<(), Error> {
+    if detail.update_cr0 {
+        set_condition_register_signed(block, scalar("cr0", 32), result.into(), expr_const(0, 32))?;
+    }
+    Ok(())
+}
+
 pub fn set_condition_register_summary_overflow(
     block: &mut Block,
     condition_register: Scalar,
@@ -348,6 +357,7 @@ pub fn rlwinm_(
     sh: u64,
     mb: u64,
     me: u64,
+    detail: &capstone::cs_ppc,
 ) -> Result<(), Error> {
     /*
     - If the MB value is less than the ME value + 1, then the mask bits between
@@ -375,7 +385,8 @@ pub fn rlwinm_(
 
         let value = Expr::rotl(rs, expr_const(sh, 32))?;
         let value = Expr::and(value, expr_const(mask, 32))?;
-        block.assign(ra, value);
+        block.assign(ra.clone(), value);
+        record_cr0(block, detail, ra)?;
 
         block.index()
     };
@@ -401,7 +412,8 @@ pub fn add(
         let block = control_flow_graph.new_block()?;
 
         let src = Expression::add(lhs, rhs)?;
-        block.assign(dst, src);
+        block.assign(dst.clone(), src);
+        record_cr0(block, &detail, dst)?;
 
         block.index()
     };
@@ -490,7 +502,8 @@ pub fn addze(
             scalar("carry", 1),
             Expression::cmpltu(sum.clone().into(), lhs)?,
         );
-        block.assign(dst, sum.into());
+        block.assign(dst.clone(), sum.into());
+        record_cr0(block, &detail, dst)?;
 
         block.index()
     };
@@ -958,7 +971,8 @@ pub fn mr(
     let block_index = {
         let block = control_flow_graph.new_block()?;
 
-        block.assign(dst, src);
+        block.assign(dst.clone(), src);
+        record_cr0(block, &detail, dst)?;
 
         block.index()
     };
@@ -1063,7 +1077,7 @@ pub fn rlwinm(
     let mb = detail.operands[3].imm() as u64;
     let me = detail.operands[4].imm() as u64;
 
-    rlwinm_(control_flow_graph, ra, rs, sh, mb, me)
+    rlwinm_(control_flow_graph, ra, rs, sh, mb, me, &detail)
 }
 
 pub fn slwi(
@@ -1076,7 +1090,7 @@ pub fn slwi(
     let rs = get_register(detail.operands[1].reg())?.expression();
     let sh = detail.operands[2].imm() as u64;
 
-    rlwinm_(control_flow_graph, ra, rs, sh, 0, 31 - sh)
+    rlwinm_(control_flow_graph, ra, rs, sh, 0, 31 - sh, &detail)
 }
 
 pub fn srawi(
@@ -1103,7 +1117,8 @@ pub fn srawi(
                 Expression::cmpneq(lost, expr_const(0, 32))?,
             )?,
         );
-        block.assign(dst, Expression::sra(lhs, rhs)?);
+        block.assign(dst.clone(), Expression::sra(lhs, rhs)?);
+        record_cr0(block, &detail, dst)?;
 
         block.index()
     };
@@ -1237,7 +1252,8 @@ pub fn subf(
             Expression::add(Expression::xor(lhs, expr_const(0xffff_ffff, 32))?, rhs)?,
             expr_const(1, 32),
         )?;
-        block.assign(dst, src);
+        block.assign(dst.clone(), src);
+        record_cr0(block, &detail, dst)?;
 
         block.index()
     };
